@@ -248,7 +248,8 @@ def check_wiring(ctx, w):
            tr.get('self._stringtable') == [('=', '_DynamicStringTable(_stream,table_offset)'), ('=', "get_section_by_name(elffile,'.dynstr')")],
            got=tr.get('self._stringtable'))
     src = U(f.node)
-    ctx.ob('W-WIRE', f.construct, "table offset from get_table_offset('DT_STRTAB')", "_, table_offset = self.get_table_offset('DT_STRTAB')" in src)
+    ctx.ob('W-WIRE', f.construct, "table offset from get_table_offset('DT_STRTAB')",
+           tr.get('table_offset') == [('=', "index(get_table_offset(self,'DT_STRTAB'),1)")], got=tr.get('table_offset'))
     f = w.model.func(DYN, '_DynamicStringTable.get_string')
     env = expr.FEnv(f.node, params=('offset',))
     ops = [o.t() for o in streams.func_ops(f.node, env)]
